@@ -26,21 +26,7 @@ TRANSLATORS = ["T-config", "T-config-time", "T-config-main"]
 
 # Genuine defects of halmos found by this check (the coordinator decides between a fix: commit
 # and known_findings.json).  Same format as known_findings.json entries.
-KNOWN = [
-    {
-        "id": "C18-F3-timeout-unparse-truncates",
-        "property": "C18",
-        "what": "ParseTimeout.unparse truncates: 1500ms -> 1.5 -> '1s' -> 1.0; 0.5ms -> '0ms' (only whole ms below 1 s and whole seconds survive); "
-                "python -m halmos.config writes a different timeout than the one given",
-        "match": {"codec": "timeout", "defect": "roundtrip"},
-    },
-    {
-        "id": "C18-errcodes-negative-unparse",
-        "property": "C18",
-        "what": "ParseErrorCodes.parse accepts negative codes ('-1' -> {-1}) but unparse renders them as '0x-1', which parse rejects",
-        "match": {"codec": "errcodes", "defect": "roundtrip-negative"},
-    },
-]
+KNOWN = common.known_for("C18")  # entries live in /verif/known_findings.json
 
 ASSUMPTIONS = [
     "Python floats are modelled as exact rationals; the tie compares with relative tolerance 1e-9 (binary64 rounding is not modelled)",
